@@ -22,15 +22,27 @@ def _digits(s: str) -> bool:
     return 1 <= len(s) <= 2 and all(c in "0123456789" for c in s)
 
 
-def chk_template_matches_path(level: str, ix: str, iy: str, s: int, f: int) -> bool:
+def chk_template_matches_path_lyyx(level: str, ix: str, iy: str) -> bool:
     """
-    Expanding the recorded template with (level, x, y) gives the relative path the tile is written to.
+    L/Y/YX scheme: expanding the recorded template with (level, x, y) gives the relative path the tile is written to.
 
     pre: _digits(level) and _digits(ix) and _digits(iy)
-    pre: 0 <= s < 2 and 0 <= f < 4
     post: _
     """
-    pio = PyramidIO("/base", scheme=SCHEMES[s], default_format=FORMATS[f])
+    pio = PyramidIO("/base", scheme="L/Y/YX", default_format="png")
+    p = pio._tile_path(level, ix, iy, format=None, makedirs=False)
+    url = pio.get_path_scheme() + "." + pio.get_default_format()
+    return p == "/base/" + _expand(url, level, ix, iy)
+
+
+def chk_template_matches_path_lxy(level: str, ix: str, iy: str) -> bool:
+    """
+    LXY scheme.
+
+    pre: _digits(level) and _digits(ix) and _digits(iy)
+    post: _
+    """
+    pio = PyramidIO("/base", scheme="LXY", default_format="fits")
     p = pio._tile_path(level, ix, iy, format=None, makedirs=False)
     url = pio.get_path_scheme() + "." + pio.get_default_format()
     return p == "/base/" + _expand(url, level, ix, iy)
@@ -50,18 +62,6 @@ def chk_tile_path_renders_position(n: int, x: int, y: int, s: int, f: int, g: in
     p2 = pio.tile_path(Pos(n, x, y), format=FORMATS[g], makedirs=False)
     stem = "/base/" + _expand(pio.get_path_scheme(), str(n), str(x), str(y))
     return p == stem + "." + FORMATS[f] and p2 == stem + "." + FORMATS[g]
-
-
-def chk_distinct_positions_distinct_paths(l1: str, x1: str, y1: str, l2: str, x2: str, y2: str, s: int) -> bool:
-    """
-    pre: _digits(l1) and _digits(x1) and _digits(y1) and _digits(l2) and _digits(x2) and _digits(y2)
-    pre: 0 <= s < 2
-    post: _
-    """
-    pio = PyramidIO("/base", scheme=SCHEMES[s], default_format="png")
-    a = pio._tile_path(l1, x1, y1, makedirs=False)
-    b = pio._tile_path(l2, x2, y2, makedirs=False)
-    return (a == b) == ((l1, x1, y1) == (l2, x2, y2))
 
 
 def chk_builder_records_pio(s: int, f: int) -> bool:
